@@ -13,10 +13,11 @@ RULE = ("configurations: every (list, n_cpu, mode) of the grid is run on the rea
         "order are enumerated exhaustively; max_returns: per query count/true/closest checks; non-trivial = expected set non-empty")
 ASSUMPTIONS = ["real OS timing of pool workers is not controlled; Pool.map is order-preserving by contract and every chunk schedule is enumerated in the virtual pool",
                "virtual pool models Pool(n) with map/starmap/imap/imap_unordered and the fork start method"]
-REQUIRED_CLASSES = {"all": ["n_cpu>len", "n_cpu==len", "chunksize-does-not-divide", "virtual-schedule", "compression>1", "max_returns-truncates", "mode-hamming", "mode-callable"]}
+REQUIRED_CLASSES = {"all": ["n_cpu>len", "n_cpu==len", "chunksize-does-not-divide", "virtual-schedule", "compression>1", "max_returns-truncates", "mode-hamming", "mode-callable", "long-sequences>=127"]}
 MIN_OUTCOMES = 10
 
 MODES = ("default", "hamming", "callable")
+MR_MODES = MODES + ("callable-lendiff",)     # max_returns also with a custom distance that does not rank candidates like Levenshtein
 _BASE = ["AC", "A", "CA", "AA", "ACD", "C", "CAD", "AAC", "", "ACC", "DA", "AD", "CC", "AC", "ADC", "D", "CD"]
 SIZES = (1, 2, 3, 4, 5, 6, 7, 8, 9, 11, 13, 16, 17)
 
@@ -25,11 +26,17 @@ def lendiff_lev(a, b):
     return ref_lev(a, b) + abs(len(a) - len(b)) / 2
 
 
+def lendiff(a, b):
+    return abs(len(a) - len(b))
+
+
 def mode_kw(mode):
     if mode == "default":
         return {}
     if mode == "hamming":
         return dict(custom_distance="hamming")
+    if mode == "callable-lendiff":
+        return dict(custom_distance=lendiff)
     return dict(custom_distance=lendiff_lev, max_custom_distance=2.0)
 
 
@@ -39,6 +46,8 @@ def expected(seqs, k, mode):
     base = neighbors_within(list(seqs), k)
     if mode == "default":
         return base
+    if mode == "callable-lendiff":
+        return {(i, j, lendiff(seqs[i], seqs[j])) for i, j, d in base}
     return {(i, j, lendiff_lev(seqs[i], seqs[j])) for i, j, d in base if lendiff_lev(seqs[i], seqs[j]) <= 2.0}
 
 
@@ -58,6 +67,11 @@ def spaces(tier):
                 for k in (1, 2, 3):
                     yield ("comp", alpha, 3 if q else 4, comp, k)
 
+    def gen_long():
+        for n in (127, 128, 129, 255, 256):
+            for comp in (1, 2, 10, 20, 25):
+                yield ("long", n, comp)
+
     def gen_virtual():
         lists = [tuple(_BASE[:n]) for n in ((2, 3, 4) if q else (2, 3, 4, 5))] + [("A", "A", "A"), ("AC", "CA", "A", "ACD")]
         for seqs in lists:
@@ -70,14 +84,19 @@ def spaces(tier):
             yield ("maxret", seqs)
         for alpha, L in (("AC", 4), ("ACD", 3)):
             for m in (1, 2, 3, 5):
-                for mode in MODES:
+                for mode in MR_MODES:
                     yield ("maxret-uni", alpha, L, m, mode)
+        for comp in (1, 2, 5, 10, 25):
+            for m in (1, 2):
+                for mode in MR_MODES:
+                    yield ("maxret-comp", comp, m, mode)
 
     return [
         Space("real-pool-grid", gen_real, "prefixes of a 17-string corpus of sizes %s x n_cpu in 1..16 (quick: 1,2,3,4,7,8,16) x {default,hamming,callable}; real multiprocessing.Pool" % (SIZES,), per_case=True),
         Space("compression-grid", gen_comp, "U(alphabet,3|4) for 3 bin-straddling alphabets x compression 1..25 x k in 1..3 x 3 modes at n_cpu=1"),
+        Space("long-sequences-x-compression", gen_long, "sequences of 127..256 residues (homopolymers and a 10-letter repeat, one edit apart) x compression in {1,2,10,20,25} x 3 modes x k in 1..2"),
         Space("virtual-pool-schedules", gen_virtual, "every chunk-to-worker assignment and completion order for lists of 2..4(5) sequences x n_cpu in {2,3} x 3 modes", per_case=True),
-        Space("max_returns", gen_maxret, "Lists(U(AC,2),4|5) and two universes x max_returns in {1,2,3,N} x 3 modes"),
+        Space("max_returns", gen_maxret, "Lists(U(AC,2),4|5), two universes and a bin-sharing family x compression in {1,2,5,10,25}; max_returns in {1,2,3,N} x 4 modes (incl. a callable that does not rank like Levenshtein)"),
     ]
 
 
@@ -150,12 +169,31 @@ def check_case(case, acc):
     elif kind == "maxret":
         seqs = case[1]
         for m in (1, 2, 3, len(seqs)):
-            for mode in MODES:
+            for mode in MR_MODES:
                 for k in (1, 2):
                     _check_maxret(acc, ("maxret1", seqs, m, mode, k), seqs, m, mode, k)
     elif kind == "maxret1":
         _, seqs, m, mode, k = case
         _check_maxret(acc, case, seqs, m, mode, k)
+    elif kind == "maxret-comp":
+        _, comp, m, mode = case
+        # bin-sharing letters: with compression the KD ball holds candidates that are no true neighbours
+        seqs = ["CASSL", "CASSLG", "CAWWL", "CASWL", "CAWSL", "CATTL", "CASSV", "CWSSL"]
+        for k in (1, 2):
+            _check_maxret(acc, case, seqs, m, mode, k, compression=comp)
+    elif kind == "long":
+        _, n, comp = case
+        acc.cls("long-sequences>=127")
+        seqs = ["A" * n, "A" * (n + 1), "A" * (n - 1) + "C", "ACDEFGHIKL" * (n // 10) + "A" * (n % 10), "ACDEFGHIKL" * (n // 10) + "A" * (n % 10) + "L", "CAF"]
+        for mode in MODES:
+            for k in (1, 2):
+                exp = expected(seqs, k, mode)
+                res = _kd(acc, seqs, k, mode, compression=comp)
+                bad = diagnose(res, exp)
+                if bad is not None:
+                    _report(acc, "kdtree/%s/long-sequences/%s" % (mode, bad[0]), case, exp, res, note=str(bad))
+                    return
+                acc.ok((n, comp, mode, k, len(res)), nontrivial=bool(exp))
     elif kind == "maxret-uni":
         _, alpha, L, m, mode = case
         seqs = E.universe(alpha, L)
@@ -216,9 +254,9 @@ def _check_virtual(acc, case, only=None):
         acc.ok((seqs, ncpu, mode, nsched, tuple(outcomes)), nontrivial=bool(exp))
 
 
-def _check_maxret(acc, case, seqs, m, mode, k):
+def _check_maxret(acc, case, seqs, m, mode, k, **kw):
     exp = expected(seqs, k, mode)
-    res = _kd(acc, seqs, k, mode, max_returns=m)
+    res = _kd(acc, seqs, k, mode, max_returns=m, **kw)
     key = "kdtree/%s/max_returns/" % mode
     if raised(res):
         acc.fail(key + "raised-" + res.type, case, "a result", repr(res))
